@@ -20,6 +20,9 @@ pub struct Case {
     pub rnd: Vec<i8>,
     pub prove: bool,
     pub seed: u64,
+    /// Z of the extended representation the generator is handed over in
+    #[serde(default = "crate::prog::fe_one")]
+    pub z: Fe,
 }
 
 fn case_strategy(_t: Tier) -> BoxedStrategy<Case> {
@@ -31,8 +34,9 @@ fn case_strategy(_t: Tier) -> BoxedStrategy<Case> {
         proptest::collection::vec(-1i8..=1, 8),
         proptest::bool::weighted(0.05),
         any::<u64>(),
+        prop_oneof![2 => Just(crate::prog::fe_one()), 1 => Just(Fe(F::from(2u64))), 1 => Just(Fe(-F::one())), 2 => crate::fe::fe_nonzero()],
     )
-        .prop_map(|(gen, sclass, s, pos, rnd, prove, seed)| Case {
+        .prop_map(|(gen, sclass, s, pos, rnd, prove, seed, z)| Case {
             gen,
             sclass,
             s,
@@ -40,6 +44,7 @@ fn case_strategy(_t: Tier) -> BoxedStrategy<Case> {
             rnd,
             prove,
             seed,
+            z,
         })
         .boxed()
 }
@@ -142,13 +147,13 @@ fn check(ctx: &Ctx, c: &Case) -> PResult {
     let k = gen_k(c);
     let g_pt = curve::gmul(&k);
     let canonical = f_int(&s).lt(RJ_MOD);
-    let cls = format!("mul_generator scalar {}", if canonical { "canonical" } else { "non-canonical" });
+    let cls = format!("mul_generator scalar {}{}", if canonical { "canonical" } else { "non-canonical" }, if c.z.0 == F::one() { "" } else { ", generator with Z != 1" });
     ctx.eval(&cls);
     let want = curve::mul_f(&s, &g_pt).unwrap();
 
     // public entry point
     let api = no_panic("mul-generator-panic", || {
-        Gad::build(vec![Op::MulGenerator { s: Fe(s), gen: Fe(k) }], false)
+        Gad::build(vec![Op::MulGenerator { s: Fe(s), gen: Fe(k), z: c.z }], false)
     })?;
     match (&api, canonical) {
         (Ok(g), true) => {
@@ -222,7 +227,7 @@ fn check(ctx: &Ctx, c: &Case) -> PResult {
     let mut twin_layout_checked = false;
     for (name, d) in cands {
         let twin = no_panic("fixed-base-seam-panic", || {
-            Gad::build(vec![Op::FixedSeam { s: Fe(s), gen: Fe(k), digits: d.to_vec() }], false)
+            Gad::build(vec![Op::FixedSeam { s: Fe(s), gen: Fe(k), digits: d.to_vec(), z: c.z }], false)
         })?
         .map_err(|e| Fail::new("fixed-base-seam-error", format!("{e:?}")))?;
         if let (Ok(g), false) = (&api, twin_layout_checked) {
@@ -288,7 +293,7 @@ fn check(ctx: &Ctx, c: &Case) -> PResult {
     // reject them too.
     if canonical && (c.prove || c.seed % 16 == 0) {
         if let Some(d) = naf(si) {
-            let twin = Gad::build(vec![Op::FixedSeam { s: Fe(s), gen: Fe(k), digits: d.to_vec() }], false)
+            let twin = Gad::build(vec![Op::FixedSeam { s: Fe(s), gen: Fe(k), digits: d.to_vec(), z: c.z }], false)
                 .map_err(|e| Fail::new("fixed-base-seam-error", format!("{e:?}")))?;
             let rows: Vec<usize> = (0..twin.layout.rows.len()).filter(|i| twin.layout.rows[*i].sel[spec_q_fixed()] != F::zero()).collect();
             if rows.len() >= 8 {
@@ -376,5 +381,5 @@ pub fn props() -> Vec<(Box<dyn PropDyn>, u32, u32)> {
 }
 
 pub fn describe(ctx: &Ctx) {
-    ctx.rule("cases: generators [k]G (k in {1, 2, random}) x scalar witnesses {0, 1, r_J-1, r_J, r_J+1, 2^252-1, q-1, random field element, small, random canonical}; signed-digit vectors through the fixed-base seam {NAF of s, binary digits, 01->1(-1) rewrite, NAF/binary of s+r_J and s+q, negated digits of r_J-s, all zero, random digits, non-zero leading digits} plus forged single wires (scalar accumulator, xy_alpha, acc_x, acc_y) on the honest twin, and joint forgeries of one round whose two residuals cancel ((x step, y step), (helper wire, x step)) with the chain continued from the forged point - these are given to the REAL prover, which must reject them. Oracle: entry point Ok iff s < r_J and then returned = [s]G (harness affine arithmetic) and satisfiable; through the seam any satisfied digit vector requires s canonical and the digits' point = [s]G; seam twin layout = component layout. non-trivial = every case; distinct by case");
+    ctx.rule("cases: generators [k]G (k in {1, 2, random}) handed over normalised (Z = 1) or in a consistent extended representation with Z in {2, -1, random} x scalar witnesses {0, 1, r_J-1, r_J, r_J+1, 2^252-1, q-1, random field element, small, random canonical}; signed-digit vectors through the fixed-base seam {NAF of s, binary digits, 01->1(-1) rewrite, NAF/binary of s+r_J and s+q, negated digits of r_J-s, all zero, random digits, non-zero leading digits} plus forged single wires (scalar accumulator, xy_alpha, acc_x, acc_y) on the honest twin, and joint forgeries of one round whose two residuals cancel ((x step, y step), (helper wire, x step)) with the chain continued from the forged point - these are given to the REAL prover, which must reject them. Oracle: entry point Ok iff s < r_J and then returned = [s]G (harness affine arithmetic) and satisfiable; through the seam any satisfied digit vector requires s canonical and the digits' point = [s]G; seam twin layout = component layout. non-trivial = every case; distinct by case");
 }
